@@ -1134,6 +1134,15 @@ class Machine:
         return new_dict(self, e, hint)
 
     def ex_JoinedStr(self, e: ast.JoinedStr, hint: str | None = None) -> V:
+        if not getattr(self, "_in_fstring_hook", False):
+            for h in getattr(self.world, "fstring_hooks", []):     # an area may name the formatted text (after checking it against its definition)
+                self._in_fstring_hook = True
+                try:
+                    r = h(self, e)
+                finally:
+                    self._in_fstring_hook = False
+                if r is not None:
+                    return r
         parts: list[Any] = []
         for v in e.values:
             if isinstance(v, ast.Constant):
